@@ -55,7 +55,7 @@ def judge(ctx, res, tpath, what):
 def run(ctx):
     # ---- design level
     ctx.mc("DNSMC", ctx.pick("DNSMC.cfg", "DNSMC.cfg"), workers=8)
-    for k in (1, 2, 3):
+    for k in ctx.pick((1, 2), (1, 2, 3)):
         ctx.neg("DNSMC", "DNSNeg%d.cfg" % k, expect="I_NoViol", workers=2)
     ctx.mc("DNSTargetMC", ctx.pick("DNSTargetMC.cfg", "DNSTargetMC5.cfg"), workers=8)
     ctx.neg("DNSTargetMC", "DNSTargetNeg.cfg", expect="I_TrailingColon", workers=2)
@@ -63,7 +63,7 @@ def run(ctx):
 
     # ---- pacing: TLC timelines
     g = ctx.dump_graph("DNSMC", "DNSGen.cfg")
-    behs = ctx.edge_cover(g, step_of, limit=ctx.pick(2500, None))
+    behs = ctx.edge_cover(g, step_of, limit=ctx.pick(1500, None))
     bpath = os.path.join(ctx.run, "beh.ndjson")
     tpath = os.path.join(ctx.run, "trace-replay.ndjson")
     write_ndjson(bpath, behs)
@@ -79,14 +79,14 @@ def run(ctx):
 
     # ---- pacing: random ms timelines
     tpath = os.path.join(ctx.run, "trace-random.ndjson")
-    n = ctx.pick(600, 20000)
+    n = ctx.pick(400, 20000)
     s = summary(ctx.driver(binary, "TestVerifC56Random", {"VERIF_OUT": tpath, "VERIF_N": n}, timeout=1200))
     ctx.count({"random_timelines": n, "seed": ctx.seed, "lookups": s["lookups"]}, n=n)
     judge(ctx, ctx.validate("DNSTrace", "DNSTrace.cfg", tpath), tpath, "random timelines seed %d" % ctx.seed)
 
     # ---- targets
     ppath = os.path.join(ctx.run, "pairs.ndjson")
-    s = summary(ctx.driver(binary, "TestVerifC56Targets", {"VERIF_OUT": ppath, "VERIF_N": ctx.pick(800, 20000),
+    s = summary(ctx.driver(binary, "TestVerifC56Targets", {"VERIF_OUT": ppath, "VERIF_N": ctx.pick(300, 20000),
                                                             "VERIF_MAXLEN": ctx.pick(4, 5)}))
     rows = read_ndjson(ppath)
     for r in rows:
